@@ -66,3 +66,19 @@ def relational_models():
                 ed.create_model(cls)
         _REL_READY = True
     return M
+
+
+_ALT_READY = False
+
+
+def alternate_models():
+    global _ALT_READY
+    setup()
+    from django.db import connection
+    from vt_dj import models as M
+    if not _ALT_READY:
+        with connection.schema_editor() as ed:
+            for cls in (M.Node, M.Item, M.Extra):
+                ed.create_model(cls)
+        _ALT_READY = True
+    return M
